@@ -1,5 +1,5 @@
 """C02 -- a well-formed template renders to the documented expansion (structural clauses)."""
-from qlib import astq, tab
+from qlib import dataflow, astq, tab
 from qlib.model import AnalysisBroken
 from qlib.report import Rule
 
@@ -300,4 +300,129 @@ def run(ctx):
             at = g.text(g.strip_casts(a))
             r.ob(g.q, g.text(c)[:60], at in ctxvars, "loop context passed: `%s` (in scope: %s)" % (at, ctxvars), g.loc(c))
     rules.append(r)
+    rules.append(rule_child_flag(ctx, m, pf))
+    from rules.common import rule_sign_unit
+    rules.append(rule_sign_unit(ctx, m, ["Template.hpp", "Digit.hpp", "QExpression.hpp", "StringUtils.hpp"]))
     return rules
+
+
+def rule_child_flag(ctx, m, pf):
+    """PR-childflag: parse() keeps one boolean that says "the tags being collected belong to an open {svar:...}/{if ...} tag"; it
+    is set where such a tag pushes its parent's storage and must be cleared where the closing `}` pops it, whichever kind of
+    tag is being closed -- otherwise a later literal `}` pops the storage of an enclosing <loop>/<if> block.  Typestate pairing on
+    the CFG: (set) every assignment flag = true sits in a block that also pushes the storage stack; (clear) from the true edge of
+    every test of the flag that guards a pop of the stack, every path out of the guarded statement passes flag = false."""
+    r = Rule("PR-childflag", "the in-a-child-tag flag is set with the push of the parent storage and cleared on every path that pops it", floor=4)
+    ctx.note_fn(pf)
+    blocks = pf.blocks()
+
+    def lit_assign(e, val):
+        n = pf.nodes[e]
+        if n["k"] == "BinaryOperator" and n["op"] == "=":
+            lh = pf.nodes[pf.strip(n["ch"][0])]
+            if lh["k"] == "DeclRefExpr" and lh.get("tk") == "bool" and lh.get("dk") == "var" and pf.const_value(n["ch"][1]) is not None \
+                    and bool(pf.const_value(n["ch"][1])) == val:
+                return lh["d"], lh["n"]
+        return None
+    # the storage stack: a local Array of pointers to Array<TagBit>
+    stacks = set(d["n"] for x in astq.nodes_of(pf, "DeclStmt") for d in pf.nodes[x]["decls"] if "n" in d and "Array<Array<" in d.get("t", "").replace(" ", "") and "*>" in d.get("t", "").replace(" ", ""))
+    if not stacks:
+        r.broke("parse: the stack of parent tag storages (a local Array<Array<TagBit> *>) was not found")
+        return r
+
+    def pushes(b):
+        for e in b["el"]:
+            x = e.get("n")
+            if isinstance(x, int) and not e.get("k"):
+                n = pf.nodes[x]
+                if n["k"] in ("CompoundAssignOperator", "CXXOperatorCallExpr", "BinaryOperator") and n.get("op") == "+=" and pf.text(n["ch"][0] if n["k"] != "CXXOperatorCallExpr" else pf.call_args(x)[0]) in stacks:
+                    return True
+        return False
+
+    def pops(root):
+        return [c for c in astq.calls(pf, "Drop", root) if pf.call_receiver(c) is not None and pf.text(pf.call_receiver(c)) in stacks]
+    flags = {}
+    for b in pf.cfg["blocks"]:
+        for e in b["el"]:
+            x = e.get("n")
+            if isinstance(x, int) and not e.get("k"):
+                la = lit_assign(x, True)
+                if la:
+                    flags.setdefault(la, []).append((b, x))
+    cand = {k: v for k, v in flags.items() if any(pushes(b) for (b, x) in v)}
+    if len(cand) != 1:
+        r.broke("parse: expected one boolean that is set where a tag pushes its parent's storage, found %s" % sorted(n for (_, n) in cand))
+        return r
+    (fd, fname), sets = list(cand.items())[0]
+    for (b, x) in sets:
+        r.ob(pf.q, "%s = true" % fname, pushes(b), "the flag is set %s" % ("together with the push of the parent storage" if pushes(b) else "without pushing the parent storage: the next `}` pops a level that was never pushed"), pf.loc(x))
+    # guarded pops
+    guarded = []
+    for i in astq.nodes_of(pf, "IfStmt"):
+        n = pf.nodes[i]
+        atoms = []
+        from rules.progress import flatten_and
+        flatten_and(pf, n["cond"], atoms)
+        if any(pf.nodes[a]["k"] == "DeclRefExpr" and pf.nodes[a].get("d") == fd for a in atoms) and pops(n["then"]):
+            guarded.append(i)
+    if not guarded:
+        r.broke("parse: no test of `%s` guards a pop of the storage stack" % fname)
+        return r
+    for i in guarded:
+        region = set(pf.walk(pf.nodes[i]["then"]))
+        def real(b_):
+            return [e["n"] for e in b_["el"] if isinstance(e.get("n"), int) and not e.get("k")]
+        in_region = set(b_["id"] for b_ in pf.cfg["blocks"] if real(b_) and all(x in region for x in real(b_)))
+        transparent = set(b_["id"] for b_ in pf.cfg["blocks"] if not real(b_))
+        n = pf.nodes[i]
+        atoms = []
+        flatten_and(pf, n["cond"], atoms)
+        lastatom = pf.strip(atoms[-1])
+        entries = []
+        for b_ in pf.cfg["blocks"]:
+            if "cond" in b_ and pf.strip(b_["cond"]) == lastatom:
+                entries += [blocks[s_] for (s_, k_, p_) in dataflow.successors(pf, b_) if k_ == "true"]
+        if not entries:
+            r.broke("parse: the true edge of `%s` was not found in the CFG" % pf.text(n["cond"])[:60])
+            continue
+        bad = None
+        seen = set()
+        pop_nodes = set(pops(pf.nodes[i]["then"]))
+        # state: (flag value, pushed levels relative to the entry); consistent = (true, 0) or (false, -1)
+        work = [(b["id"], (True, 0)) for b in entries]
+        while work and bad is None:
+            bid, stt = work.pop()
+            if (bid, stt) in seen:
+                continue
+            seen.add((bid, stt))
+            b = blocks[bid]
+            last = None
+            flag, depth = stt
+            for e in b["el"]:
+                x = e.get("n")
+                if isinstance(x, int) and not e.get("k") and x in region:
+                    last = x
+                    n_ = pf.nodes[x]
+                    la = lit_assign(x, False)
+                    if la and la[0] == fd:
+                        flag = False
+                    la = lit_assign(x, True)
+                    if la and la[0] == fd:
+                        flag = True
+                    if x in pop_nodes:
+                        depth -= 1
+                    if n_["k"] in ("CompoundAssignOperator", "CXXOperatorCallExpr", "BinaryOperator") and n_.get("op") == "+=" and \
+                            pf.text(n_["ch"][0] if n_["k"] != "CXXOperatorCallExpr" else pf.call_args(x)[0]) in stacks:
+                        depth += 1
+            for (s_, k_, p_) in dataflow.successors(pf, b):
+                if s_ in in_region or s_ in transparent:
+                    if abs(depth) < 4:
+                        work.append((s_, (flag, depth)))
+                elif (flag, depth) not in ((True, 0), (False, -1)):
+                    bad = (b, last, flag, depth)
+        where = pf.loc(bad[1]) if bad and bad[1] is not None else pf.loc(i)
+        r.ob(pf.q, "if (%s ...) pop" % fname, bad is None, "on every path out of the statement `%s` is false exactly when the parent storage was popped" % fname if bad is None else
+             "a path leaves the statement at %s with `%s` %s and the storage stack %s: %s" % (
+                 where[0] if isinstance(where, tuple) else where, fname, "true" if bad[2] else "false", "popped" if bad[3] < 0 else ("not popped" if bad[3] == 0 else "pushed once more"),
+                 "the next literal `}` in the text pops the storage of an enclosing block" if bad[2] else "the closing `}` of the child tag is taken for text"), pf.loc(i))
+    return r
